@@ -3,6 +3,8 @@
 Deciding monitors: (1) exception-class monitor at the API boundary; (2) sys.monitoring logical
 step budget (LINE events inside utype/) with loop-signature confirmation; (3) body-entered /
 __validate__-entered flags of generated functions and data classes."""
+import typing
+
 from .. import typespec as TS
 from .. import values as V
 from ..execu import raised_in_harness_object, run, root_cause, tb_site
@@ -30,7 +32,8 @@ RULE = ("cases = random TypeSpec (as C01, incl. abstract origins, data classes, 
         "ready-made constrained classes of utype.types (Timestamp, EmailStr, Year ...; several carry pre_validate / post_validate "
         "hooks) called directly with hostile values and temporal extremes (datetime.min / max, timedelta.max ...); 3%: temporal targets "
         "given huge finite Decimals while the ambient decimal context does not trap Overflow (decimal.ExtendedContext); 3%: one field or "
-        "parameter given under two of its spellings with two hostile values (the alias-conflict report).")
+        "parameter given under two of its spellings with two hostile values (the alias-conflict report); 1.5%: Type[T] called directly "
+        "with classes, typing aliases (List[int], Optional[int], Any, TypeVar ...) and other objects.")
 ASSUMPTIONS = [
     "top-level data-class inputs whose keys are not strings are outside the statement (TypeError 'keywords must be strings' is exempt unless cast_keyword_str)",
     "a step budget separates 'loops' from 'long': exhaustion is confirmed at 10x budget and requires a <=12-line loop signature in the last 1e5 events",
@@ -167,6 +170,22 @@ def make_alias_case(rng):
             "spec": ("leaf", "int"), "route": "alias-conflict"}
 
 
+def make_typeof_case(rng):
+    """Type[T] (a class-valued annotation) called directly: classes, typing aliases and other objects as input"""
+    import collections.abc as cabc
+    pool = [int, bool, str, float, list, dict, type, object, type(None), typing.List[int], typing.Dict[str, int], typing.Optional[int], typing.Any,
+            typing.Union[int, str], list[int], typing.Tuple[int, ...], cabc.Mapping, typing.Sequence, typing.TypeVar("TV"), "int", "builtins.int", 5, None,
+            typing.Callable, typing.Literal[1], typing.Type[int], typing.Generic, typing.Protocol]
+    inputs = []
+    for _ in range(12):
+        if rng.random() < 0.75:
+            inputs.append(lambda v=rng.choice(pool): v)
+        else:
+            inputs.append(V.pick(rng, None)[1])
+    return {"fam": "typeof", "base": rng.choice(["int", "str", "object", "Mapping", "Exception"]), "opts": {}, "inputs": inputs, "rng": rng,
+            "spec": ("leaf", "int"), "route": "typeof"}
+
+
 def make_ambient_case(rng):
     """temporal targets parsed while the caller's decimal context does not trap Overflow (the stdlib's stock ExtendedContext):
     arithmetic on a huge finite Decimal then yields Infinity instead of raising"""
@@ -191,6 +210,8 @@ def make_case(i, rng, tier):
         return make_ambient_case(rng)
     if rng.random() < 0.03:
         return make_alias_case(rng)
+    if rng.random() < 0.015:
+        return make_typeof_case(rng)
     if rng.random() < 0.03:
         return make_stock_case(rng)
     depth = rng.choice([0, 1, 2, 2, 3]) if tier == "quick" else rng.choice([0, 1, 2, 2, 3, 3, 4])
@@ -249,6 +270,15 @@ def run_case(case, ctx):
                 else:
                     entry = Entry(lambda x: ns["AC"].__from__(x), judged=True)
                 spec = ("field-with-several-spellings", case["base"])
+            elif case.get("fam") == "typeof":
+                ctx.count("type_of_class_cases")
+                import collections.abc as cabc
+                from ..routes import Entry
+                from utype import Rule
+                Tbase = {"int": int, "str": str, "object": object, "Mapping": cabc.Mapping, "Exception": Exception}[case["base"]]
+                Ttype = Rule.parse_annotation(typing.Type[Tbase])
+                entry = Entry(lambda x: Ttype(x), judged=True)
+                spec = ("class-valued", "Type[%s]" % case["base"])
             elif case.get("fam") == "stock":
                 ctx.count("stock_type_cases")
                 from ..routes import Entry
@@ -263,7 +293,7 @@ def run_case(case, ctx):
                 T = Rule.parse_annotation(ann)
                 entry = make_entry(route, ann, T, opts, wrap_bare=True)
         except Exception as e:
-            if case.get("fam") in ("disc", "stock", "alias"):
+            if case.get("fam") in ("disc", "stock", "alias", "typeof"):
                 raise  # a fixed, legal declaration: failing to build it is a harness error, not a rejected declaration
             ctx.count("declaration_rejected:" + type(e).__name__)
             return
